@@ -157,7 +157,8 @@ type hlSim struct {
 	// monitors called after each block was added to the ledger and applied to the model
 	onBlock []func(vb *ledgercore.ValidatedBlock)
 	// trace of schedule actions (part of every witness)
-	trace []string
+	trace   []string
+	traceMu sync.Mutex
 	// rejected counts per reason class
 	stats map[string]int
 	// when set, every group offered to the evaluator is recorded with its outcome
@@ -264,17 +265,22 @@ func (s *hlSim) close() {
 }
 
 func (s *hlSim) tr(format string, a ...any) {
+	s.traceMu.Lock()
+	defer s.traceMu.Unlock()
 	if len(s.trace) < 4000 {
 		s.trace = append(s.trace, fmt.Sprintf(format, a...))
 	}
 }
 
-// tail of the schedule trace for witnesses
+// tail of the schedule trace for witnesses (readers may ask while the writer appends)
 func (s *hlSim) traceTail(n int) []string {
-	if len(s.trace) <= n {
-		return s.trace
+	s.traceMu.Lock()
+	defer s.traceMu.Unlock()
+	t := s.trace
+	if len(t) > n {
+		t = t[len(t)-n:]
 	}
-	return s.trace[len(s.trace)-n:]
+	return append([]string(nil), t...)
 }
 
 // startEval starts a generating+validating evaluator for the next round.
